@@ -1,0 +1,11 @@
+//go:build verif
+
+// Contracts for package stats, read by /verif/kvc (contract-based deductive verification).
+// Comment-only; excluded from every build without the `verif` tag.
+package stats
+
+// ---- C07: sharing discipline of the collector's maps (the counters themselves are atomics)
+//@ guarded (*AtomicCollector).counts by countsMu
+//@ guarded (*AtomicCollector).errors by errorsMu
+//@ guarded (*AtomicCollector).latencies by latenciesMu
+//@ guarded (*AtomicCollector).lastOpTime by lastOpTimeMu
